@@ -1,1 +1,291 @@
-From FS Require Import Sx.
+(* C15 — Copy onto existing content follows overlay rules and is idempotent.
+   Only the property theorems (closed by [exact]) and their [Print Assumptions]; the model of
+   /repo/copy is Model/Copier.v, the declarative overlay rules are Model/CopySpec.v
+   ([overlay_all]), proofs in Proofs/Copy*P.v.
+
+   Reading guide.  [copy_top o sel sroot fs src dst] = copy.Copy on the destination file system
+   [fs] (names -> inode ids -> dentries, so hard links and metadata sharing are as on disk) with
+   the source tree [sroot]; it returns the final state and the error.  [overlay_all o sroot V src
+   dst] computes from the destination VIEW alone what must be at every path afterwards
+   ([xr_view]: dentry, whether its mtime is determined, an inode KEY: same key <-> same inode),
+   the notifications, or the error ([XConflict cls path obstacle], [XOther cls], [XScope] = a
+   symlink on an argument path, C14's subject).  [view_matches V X] = every path of V carries
+   exactly the entry X demands (all stat fields, xattrs, bytes, symlink target; mtime unless
+   unspecified) and two non-directories share an inode iff their keys are equal.
+   [wf_src]: sibling names distinct, only directories have children, valid types, symlinks 0777,
+   xattrs sorted by key.  [wf_fs]: ids below [next], every entry has a parent directory,
+   directories have one name, the root is a directory.
+   [links_consistent]: the names of one multiply-linked regular file carry one dentry.
+   Link groups (copier.inodes, os.Link, forgetLinkSources): the EXACT inode partition
+   ("same group <-> same inode") is proved for one literal source and for wildcard sources
+   without link groups (hypothesis [no_link_groups sroot \/ o_wild o = false]); for wildcard
+   sources WITH link groups the dentries and "same inode -> same group" are proved
+   (copy_overlay_links), the converse is refuted (copy_overlay_partition_refuted: known finding
+   hardlink-group-split-after-overwrite).  See props/C15.json. *)
+From Coq Require Import List NArith Bool.
+From FS Require Import Sx Model.Path Model.SymMode Model.Copier Model.CopySpec
+  Proofs.CopierP Proofs.CopyOpsP Proofs.CopyTopP Proofs.CopyThmP Proofs.CopyConflictP Proofs.CopyFaithP
+  Proofs.CopyIdemP Proofs.CopyEx.
+Import ListNotations.
+Open Scope N_scope.
+Open Scope bool_scope.
+
+(* The result of a successful Copy is [overlay_all] - every dentry AND the exact inode
+   partition - and the notifications are [xr_notifs]; for one literal source (link groups
+   included) and for wildcard sources without link groups. *)
+Theorem copy_overlay_partial :
+  forall o sroot, wf_src sroot -> links_consistent sroot -> no_link_groups sroot \/ o_wild o = false ->
+  forall fs src dst r, wf_fs fs -> overlay_all o sroot (view_of_fs fs) src dst = inl r ->
+    exists st', copy_top o sel_all sroot fs src dst = (st', None) /\
+                view_matches (view_of_fs (c_fs st')) (xr_view r) /\
+                rev (c_notifs st') = xr_notifs r.
+Proof. exact copy_overlay_partial_proof. Qed.
+
+(* EVERY source, wildcards together with link groups included: every path carries exactly the
+   dentry the overlay demands ([match_at]: type, mode, owner, time, device, target, xattrs,
+   bytes), and two names share an inode only if the overlay puts them into one group
+   ([keys_sound]: a copy is never linked to a file of another group, nor to a foreign file -
+   what forgetLinkSources repairs); notifications as specified. *)
+Theorem copy_overlay_links :
+  forall o sroot, wf_src sroot -> links_consistent sroot ->
+  forall fs src dst r, wf_fs fs -> overlay_all o sroot (view_of_fs fs) src dst = inl r ->
+    exists st', copy_top o sel_all sroot fs src dst = (st', None) /\
+                (forall p, match_at (view_of_fs (c_fs st')) (xr_view r) p = true) /\
+                keys_sound (view_of_fs (c_fs st')) (xr_view r) /\
+                rev (c_notifs st') = xr_notifs r.
+Proof. exact copy_overlay_links_proof. Qed.
+
+(* ... but not the converse: with wildcards a later match can replace the recorded copy of a
+   link group while another name of it survives; the next member is copied afresh and the
+   group ends up on two inodes (every dentry right).  Real code: corpus/C13/group_split.case,
+   known finding hardlink-group-split-after-overwrite. *)
+Theorem copy_overlay_partition_refuted :
+  exists o sroot fs src dst,
+    wf_src sroot /\ links_consistent sroot /\ wf_fs fs /\
+    match overlay_all o sroot (view_of_fs fs) src dst with
+    | inl r =>
+      let V := view_of_fs (c_fs (fst (copy_top o sel_all sroot fs src dst))) in
+      snd (copy_top o sel_all sroot fs src dst) = None /\
+      ~ (forall p q, keys_at V (xr_view r) p q = true)
+    | inr _ => False
+    end.
+Proof. exact copy_overlay_partition_refuted_proof. Qed.
+
+(* every error the specification predicts is the error Copy reports (all sources) *)
+Theorem copy_error :
+  forall o sroot, wf_src sroot -> links_consistent sroot ->
+  forall fs src dst xe, wf_fs fs -> overlay_all o sroot (view_of_fs fs) src dst = inr xe ->
+    exists st' e, copy_top o sel_all sroot fs src dst = (st', Some e) /\ err_cls e = xerr_cls xe.
+Proof. exact copy_error_partial_proof. Qed.
+
+(* A directory meeting a non-directory (class 1: source directory over a non-directory, class 2:
+   source non-directory over a directory) without always-replace: Copy fails with that class and
+   the obstacle is still at its path with the same dentry and the same inode (all sources). *)
+Theorem conflict_is_error_and_keeps_obstacle :
+  forall o sroot, wf_src sroot -> links_consistent sroot ->
+  forall fs src dst cls p bef, wf_fs fs ->
+    overlay_all o sroot (view_of_fs fs) src dst = inr (XConflict cls p bef) ->
+    o_replace o = false /\
+    exists st' e be i,
+      copy_top o sel_all sroot fs src dst = (st', Some e) /\ err_cls e = cls /\
+      bef = Some be /\
+      ((cls = 1 /\ is_dir (x_d be) = false) \/ (cls = 2 /\ is_dir (x_d be) = true)) /\
+      names (c_fs st') p = Some i /\ dent_match (inodes (c_fs st') i) be = true /\
+      (forall j, x_key be = KDst j -> i = j).
+Proof. exact conflict_is_error_and_keeps_obstacle_partial_proof. Qed.
+
+(* With always-replace no clash is ever reported (the source entry replaces the obstacle: that
+   is then part of copy_overlay, see ex_replace below). *)
+Theorem always_replace_never_conflicts :
+  forall o sroot V0 src dst cls p bef,
+    o_replace o = true -> overlay_all o sroot V0 src dst <> inr (XConflict cls p bef).
+Proof. exact always_replace_never_conflicts_proof. Qed.
+
+(* A successful Copy leaves a well-formed file system, so it can be copied onto again. *)
+Theorem copy_preserves_wf :
+  forall o sroot, wf_src sroot -> links_consistent sroot ->
+  forall fs src dst st', wf_fs fs -> copy_top o sel_all sroot fs src dst = (st', None) -> wf_fs (c_fs st').
+Proof. exact copy_preserves_wf_proof. Qed.
+
+(* "... unless always-replace is set, in which case the source wins": no clash is reported, and
+   after a successful copy every source entry is at its destination path with the source's
+   type, a source non-directory as a faithful copy whatever was there before (one literal source;
+   what else is there is copy_overlay_partial). *)
+Theorem always_replace_source_wins_partial :
+  forall o sroot, wf_src sroot -> links_consistent sroot ->
+  forall fs src dst ms sn,
+    o_replace o = true -> o_wild o = false -> wf_fs fs ->
+    parse_of o = Some ms -> s_resolve sroot (rooted src) = inl sn ->
+    (forall cls p bef, overlay_all o sroot (view_of_fs fs) src dst <> inr (XConflict cls p bef)) /\
+    (forall r L, overlay_all o sroot (view_of_fs fs) src dst = inl r -> xr_landings r = [L] ->
+       exists st', copy_top o sel_all sroot fs src dst = (st', None) /\
+         forall rel s, s_lookup sn rel = Some s ->
+           exists i d, view_of_fs (c_fs st') (L ++ rel) = Some (i, d) /\ ftype d = copy_type (sdent s) /\
+                       (is_dir (sdent s) = false -> faithful_dent o ms (sdent s) d = true)).
+Proof. exact always_replace_source_wins_partial_proof. Qed.
+
+(* Repeating a successful copy changes nothing: every path has the same dentry (type, mode,
+   owner, device, symlink target, xattrs, bytes) after the second application, and the same
+   mtime except for directories whose entries were re-created (their expected entry has
+   x_known = false: "some time during the call").
+   Full statement (copy_idempotent): target_stable o fs -> copy (copy fs) ~ copy fs for every
+   successful copy.  Here target_stable is the pair of hypotheses on the SECOND application:
+   the specification predicts success and the same landing path ([xr_landings]) - without it
+   the statement contradicts the landing rule (a source directory copied to a not yet existing
+   dst lands AT dst the first time and INSIDE dst the second time, like cp -a); landing_clear
+   as in C13.  One literal source (link groups included); inode numbers are not compared
+   (non-directories are re-created). *)
+Theorem copy_idempotent_partial :
+  forall o sroot, wf_src sroot -> links_consistent sroot ->
+  forall fs src dst r1 st1 r2 ms sn L,
+    o_wild o = false -> wf_fs fs ->
+    overlay_all o sroot (view_of_fs fs) src dst = inl r1 ->
+    copy_top o sel_all sroot fs src dst = (st1, None) ->
+    parse_of o = Some ms -> s_resolve sroot (rooted src) = inl sn ->
+    xr_landings r1 = [L] -> landing_clear r1 sn L ->
+    overlay_all o sroot (view_of_fs (c_fs st1)) src dst = inl r2 -> xr_landings r2 = [L] ->
+    exists st2, copy_top o sel_all sroot (c_fs st1) src dst = (st2, None) /\
+      forall p, match view_of_fs (c_fs st1) p, view_of_fs (c_fs st2) p with
+                | None, None => True
+                | Some (_, d1), Some (_, d2) =>
+                    same_but_time d1 d2 /\
+                    (d_mtime d1 = d_mtime d2 \/ exists e, xr_view r2 p = Some e /\ x_known e = false)
+                | _, _ => False
+                end.
+Proof. exact copy_idempotent_partial_proof. Qed.
+
+Print Assumptions copy_overlay_partial.
+Print Assumptions copy_overlay_links.
+Print Assumptions copy_overlay_partition_refuted.
+Print Assumptions copy_error.
+Print Assumptions conflict_is_error_and_keeps_obstacle.
+Print Assumptions always_replace_never_conflicts.
+Print Assumptions copy_preserves_wf.
+Print Assumptions always_replace_source_wins_partial.
+Print Assumptions copy_idempotent_partial.
+
+(* ---- non-vacuity ---- *)
+Example ex_hypotheses :
+  wf_src ex_src /\ no_link_groups ex_src /\ links_consistent ex_src /\ wf_fs fs_empty /\ wf_fs ex_dst /\
+  wf_src ex_src_links /\ links_consistent ex_src_links.
+Proof.
+  exact (conj (proj1 ex_src_wf) (conj (proj2 ex_src_wf) (conj (links_consistent_nolinks _ (proj2 ex_src_wf))
+        (conj fs_empty_wf (conj ex_dst_wf ex_src_links_wf))))).
+Qed.
+
+Definition ex_paths : list (list (list N)) :=
+  [ []; [n_d]; [n_d; n_f]; [n_d; n_f; n_x]; [n_d; n_g]; [n_d; n_l]; [n_d; n_p]; [n_p]; [n_x]; [n_d; n_d] ].
+
+(* d/f is a directory in the destination, a file in the source: class 2 at d/f, the directory
+   d/f and its content stay (same inode), the unrelated d/g too *)
+Example ex_conflict :
+  match overlay_all o_plain ex_src (view_of_fs ex_dst) n_d s_slash,
+        copy_top o_plain sel_all ex_src ex_dst n_d s_slash with
+  | inr (XConflict cls p (Some be)), (st', Some e) =>
+      N.eqb cls 2 && path_eqb p [n_d; n_f] && is_dir (x_d be) && N.eqb (err_cls e) 2 &&
+      (match names (c_fs st') [n_d; n_f], names ex_dst [n_d; n_f] with
+       | Some i, Some j => N.eqb i j && dent_match (inodes (c_fs st') i) be
+       | _, _ => false end) &&
+      (match lstat (c_fs st') [n_d; n_f; n_x] with Some d => is_reg d | None => false end)
+  | _, _ => false
+  end = true.
+Proof. vm_compute. reflexivity. Qed.
+
+(* the same call with always-replace: the file wins, d/f/x is gone, d/g stays; d, the directory
+   named by the call, is merged into: it keeps owner, mode and xattrs and gets the source's time *)
+Example ex_replace :
+  match overlay_all o_replace_on ex_src (view_of_fs ex_dst) n_d s_slash,
+        copy_top o_replace_on sel_all ex_src ex_dst n_d s_slash with
+  | inl r, (st', None) =>
+      view_matches_b (view_of_fs (c_fs st')) (xr_view r) ex_paths &&
+      (match lstat (c_fs st') [n_d; n_f] with Some d => is_reg d && bytes_eqb (d_content d) [104; 105] | None => false end) &&
+      (match lstat (c_fs st') [n_d; n_f; n_x] with Some _ => false | None => true end) &&
+      (match lstat (c_fs st') [n_d; n_g] with Some d => bytes_eqb (d_content d) [111; 108; 100] | None => false end) &&
+      (match lstat (c_fs st') [n_d] with
+       | Some d => N.eqb (d_uid d) 0 && N.eqb (perm12 d) 448 && N.eqb (d_mtime d) 1000 &&
+                   xattrs_eqb (d_xattrs d) [([97], [2])]
+       | None => false end)
+  | _, _ => false
+  end = true.
+Proof. vm_compute. reflexivity. Qed.
+
+(* a non-directory copied to an existing directory lands inside it; one notification *)
+Example ex_file_into_dir :
+  match overlay_all o_plain ex_src (view_of_fs ex_dst) n_p n_d,
+        copy_top o_plain sel_all ex_src ex_dst n_p n_d with
+  | inl r, (st', None) =>
+      view_matches_b (view_of_fs (c_fs st')) (xr_view r) ex_paths &&
+      (match lstat (c_fs st') [n_d; n_p] with Some d => N.eqb (ftype d) S_IFIFO | None => false end) &&
+      (match rev (c_notifs st') with [(p, false)] => path_eqb p [n_d; n_p] | _ => false end) &&
+      (match xr_landings r with [L] => path_eqb L [n_d; n_p] | _ => false end)
+  | _, _ => false
+  end = true.
+Proof. vm_compute. reflexivity. Qed.
+
+(* wildcards: "*" = d and p, both land in the not yet existing n/ ... the first match creates it *)
+Example ex_wildcard :
+  let o := {| o_chown := None; o_mode := None; o_modestr := []; o_utime := None; o_dircontents := false;
+              o_replace := false; o_wild := true; o_umask := 18 |} in
+  match overlay_all o ex_src (view_of_fs fs_empty) [42] [120; 47],
+        copy_top o sel_all ex_src fs_empty [42] [120; 47] with
+  | inl r, (st', None) =>
+      view_matches_b (view_of_fs (c_fs st')) (xr_view r) ([n_x; n_d] :: [n_x; n_d; n_f] :: [n_x; n_d; n_l] :: [n_x; n_p] :: ex_paths) &&
+      (match lstat (c_fs st') [n_x; n_d; n_f], lstat (c_fs st') [n_x; n_p] with Some _, Some _ => true | _, _ => false end)
+  | _, _ => false
+  end = true.
+Proof. vm_compute. reflexivity. Qed.
+
+(* the always-replace copy of ex_replace applied twice: same landing, same dentries everywhere *)
+Definition dent_eqb (a b : dent) : bool :=
+  N.eqb (d_mode a) (d_mode b) && N.eqb (d_uid a) (d_uid b) && N.eqb (d_gid a) (d_gid b) &&
+  N.eqb (d_rdev a) (d_rdev b) && bytes_eqb (d_target a) (d_target b) && xattrs_eqb (d_xattrs a) (d_xattrs b) &&
+  bytes_eqb (d_content a) (d_content b).
+Example ex_idempotent :
+  match copy_top o_replace_on sel_all ex_src ex_dst n_d s_slash with
+  | (st1, None) =>
+    match overlay_all o_replace_on ex_src (view_of_fs ex_dst) n_d s_slash,
+          overlay_all o_replace_on ex_src (view_of_fs (c_fs st1)) n_d s_slash,
+          copy_top o_replace_on sel_all ex_src (c_fs st1) n_d s_slash with
+    | inl r1, inl r2, (st2, None) =>
+        (match xr_landings r1, xr_landings r2 with [L1], [L2] => path_eqb L1 L2 | _, _ => false end) &&
+        forallb (fun p => match lstat (c_fs st1) p, lstat (c_fs st2) p with
+                          | Some d1, Some d2 => dent_eqb d1 d2 && (N.eqb (d_mtime d1) (d_mtime d2) || is_dir d2)
+                          | None, None => true
+                          | _, _ => false end) ex_paths &&
+        (match lstat (c_fs st2) [n_d; n_f] with Some d => is_reg d | None => false end)
+    | _, _, _ => false
+    end
+  | _ => false
+  end = true.
+Proof. vm_compute. reflexivity. Qed.
+
+(* link groups: d/f, d/g and h are one inode in the source; copying the root over the populated
+   destination with always-replace: the three copies share ONE inode (d/g replaces the old
+   unrelated file), d/x has its own, the overlay specification (keys KSrc) is matched *)
+Example ex_link_group :
+  match overlay_all o_replace_on ex_src_links (view_of_fs ex_dst) [] s_slash,
+        copy_top o_replace_on sel_all ex_src_links ex_dst [] s_slash with
+  | inl r, (st', None) =>
+      view_matches_b (view_of_fs (c_fs st')) (xr_view r) ([n_h] :: [n_d; n_x] :: ex_paths) &&
+      (match names (c_fs st') [n_d; n_f], names (c_fs st') [n_d; n_g], names (c_fs st') [n_h], names (c_fs st') [n_d; n_x] with
+       | Some a, Some b, Some c, Some d => N.eqb a b && N.eqb b c && negb (N.eqb a d)
+       | _, _, _, _ => false end) &&
+      (match lstat (c_fs st') [n_d; n_g] with Some d => bytes_eqb (d_content d) [104; 105] | None => false end) &&
+      negb (c_split st')
+  | _, _ => false
+  end = true.
+Proof. vm_compute. reflexivity. Qed.
+
+(* the former finding hardlink-first-copy-overwritten, repaired: d1/f1 = d2/f2 one inode, d2/f1
+   another file, "d*/f?" to "/": /f2 now reads AAA and the whole overlay incl. the partition holds *)
+Example ex_stale_repaired :
+  match overlay_all o_wild_on ex_stale_src (view_of_fs fs_empty) stale_pat s_slash,
+        copy_top o_wild_on sel_all ex_stale_src fs_empty stale_pat s_slash with
+  | inl r, (st', None) =>
+      view_matches_b (view_of_fs (c_fs st')) (xr_view r) [ []; [n_f1]; [n_f2]; [n_d1]; [n_d2] ] &&
+      (match lstat (c_fs st') [n_f1], lstat (c_fs st') [n_f2] with
+       | Some a, Some b => bytes_eqb (d_content a) [66; 66; 66] && bytes_eqb (d_content b) [65; 65; 65]
+       | _, _ => false end) && negb (c_split st')
+  | _, _ => false
+  end = true.
+Proof. vm_compute. reflexivity. Qed.
